@@ -38,19 +38,22 @@ impl MetricLogWriter for DefaultMetricLogWriter {
             // ignore
             return Ok(());
         }
-        if time_sec > self.latest_op_sec {
-            // roll to the new day's file first: the index entry of this second belongs to
-            // the file that receives its lines
-            if self.is_new_day(self.latest_op_sec, time_sec) {
-                self.roll_to_next_file(ts)?;
-            }
-            let pos = self
-                .cur_metric_file
-                .as_ref()
-                .unwrap()
-                .write()
-                .unwrap()
-                .seek(SeekFrom::Current(0))?;
+        // roll to the new day's file first: the index entry of this second belongs to
+        // the file that receives its lines
+        if time_sec > self.latest_op_sec && self.is_new_day(self.latest_op_sec, time_sec) {
+            self.roll_to_next_file(ts)?;
+        }
+        let pos = self
+            .cur_metric_file
+            .as_ref()
+            .unwrap()
+            .write()
+            .unwrap()
+            .seek(SeekFrom::Current(0))?;
+        // a second gets an index entry in every file that holds lines of it: also in a file
+        // that a size roll-over opened in the middle of the second (pos == 0), otherwise the
+        // lines of a further `write` call in that second could not be found through the index
+        if time_sec > self.latest_op_sec || pos == 0 {
             self.write_index(time_sec, pos)?;
         }
         // Write and flush
